@@ -283,6 +283,35 @@ func oracleC09(w *World, rec *BlockRecord, txs []*TxInfo) {
 			r.Probe("governance_proposal_executed_in_block", true)
 		}
 	}
+	if maxGas == -1 && !paramsChanged {
+		// unlimited block gas: the gas target is "half of infinity", usage is always below it, so the base fee moves
+		// down by an eighth (the statement's formula with (target - used) / target -> 1; an implementation that
+		// represents infinity by the largest integer loses at most one unit before the division), floor permitting
+		pe := feeParamsOf(o.BeforeEnd)
+		b := pe.BaseFee.BigInt()
+		lo, hi := new(big.Int).Set(b), new(big.Int).Set(b)
+		if b.Sign() > 0 {
+			lo.Sub(b, new(big.Int).Quo(b, big.NewInt(8)))
+			hi.Sub(b, new(big.Int).Quo(new(big.Int).Sub(b, big.NewInt(1)), big.NewInt(8)))
+		}
+		// ... or it takes the largest integer as the limit and the gas used into account: the same formula with
+		// target = (2^64-1)/2, which moves a little less
+		if m := NextBaseFeeModel(b, o.EndGasUsed, ^uint64(0), pe.MinGasPrice); m.Cmp(hi) > 0 {
+			hi.Set(m)
+		}
+		fl := pe.MinGasPrice.TruncateInt().BigInt()
+		if lo.Cmp(fl) < 0 {
+			lo.Set(fl)
+		}
+		if hi.Cmp(fl) < 0 {
+			hi.Set(fl)
+		}
+		if got.Cmp(lo) < 0 || got.Cmp(hi) > 0 {
+			r.Violate("C09", "base_fee_step", map[string]string{"dir": "unlimited_block_gas"},
+				"base fee %s, unlimited block gas, min gas price %s: next base fee %s, EIP-1559 moves it down by (nearly) an eighth: [%s, %s]", pe.BaseFee, pe.MinGasPrice, got, lo, hi)
+		}
+		r.Probe("base_fee_step_with_unlimited_block_gas", b.Cmp(big.NewInt(8)) >= 0)
+	}
 	if maxGas > 1 && !paramsChanged { // a gas target of zero (max gas 0 or 1) leaves the EIP-1559 step undefined: only "never fails" and the bounds apply
 		// base fee at end-blocker entry (a params message in the block could have changed it)
 		pe := feeParamsOf(o.BeforeEnd)
